@@ -28,6 +28,13 @@ not); a panic is still compared as a panic.
   sim_finalize      Gen.ZipWriter.finalize ~ Model.finalize   (comment length check, finish_file, central
                     directory loop = `writeAllCentral` (`central_loop`), the ZIP64 decision, the saturated
                     16/32-bit fields, the three end records)
+  sim_start_entry   Gen.ZipWriter.start_entry name o raw ~ Model.startEntry name (optOf o) (raw.map rawOf)
+                    (name length check first, finish_file, header_start, the entry record incl. the
+                    `permissions << 16` attributes, `write_local_file_header`, data_start / stats reset,
+                    `files.push`, the ZipCrypto writer with its 12-byte header)
+  sim_start_file    Gen.ZipWriter.start_file ~ Model.startFile (permission default `0o644`, `| 0o100000`,
+                    start_entry, switch to the entry's encoder, `writing_to_file`)
+  tie_set_raw_comment / tie_set_comment       the `comment` field, nothing else
   sim_finish        Gen.ZipWriter.finish   ~ Model.finish
   sim_drop          Gen.ZipWriter.drop     ~ `dropBody` (`Drop::drop` proper; `dropWriter_eq`: the model's
                     `dropWriter` is `dropBody` followed by the field destructors `dropInner`)
@@ -87,6 +94,12 @@ treatment in `Model/Writer.lean` - `Inner`, `EncState`, `WExt`, `switchTo`, `emi
   * `mem::replace(&mut self.inner, Closed)`: the old value is moved out; DROPPING it is not modelled (a
     flate2 / bzip2 encoder would flush into the sink from its destructor; the model covers that only
     for `Drop for ZipWriter`, `Model.dropInner`);
+  * a `ZipCryptoKeys` value (`FileOptions::encrypt_with`) is represented by the PASSWORD it was derived from
+    (the model's `encryptWith : Option Bytes`; `ZipCryptoKeys::derive` itself is tied in `Tie/ZipCrypto.lean`);
+    `ZipCryptoWriter { writer, buffer: vec![], keys }` is `EncState` with an empty buffer, its `write_all`
+    appends to the buffer (`Rs.S.zc_write`);
+  * new-entry hypotheses: `name.len() < 2^64` (a `String`), and the entry's time has a DOS date (year ≥ 1980,
+    a type invariant of `DateTime`; the serialiser's panic is excluded as for `finalize`);
   * `crc32fast::Hasher` is the raw CRC register (`new` = all ones, `update` = `Spec.Crc32.updateBytes`,
     `clone().finalize()` = complement); `Vec::last/last_mut/push/len`, `<Vec<u8> as Write>::write`
     (appends everything).
@@ -1653,6 +1666,228 @@ theorem sim_drop (ext : Rs.S.Ext) (g : Gen.ZipWriter)
   · ssimp [hia, hcl, Rs.S.is_closed]
     refine Sim.leaf ?_ rfl
     simp only [absR]
+
+
+/-! ### `start_entry`, `start_file`, `set_comment` / `set_raw_comment` -/
+
+/-- the model's options of a generated `FileOptions` value (a `ZipCryptoKeys` value is represented by its password) -/
+def optOf (o : Gen.FileOptions) : FileOptions :=
+  { method := Tie.Types.methodOf o.compression_method, level := o.compression_level.map Int32.toInt,
+    time := Tie.DateTime.toModel o.last_modified_time, permissions := o.permissions,
+    largeFile := o.large_file, encryptWith := o.encrypt_with }
+
+def rawOf (r : Gen.ZipRawValues) : UInt32 × UInt64 × UInt64 := (r.crc32, r.compressed_size, r.uncompressed_size)
+
+theorem lhc_nopanic (gm : FileData) (h1 : gm.time.datepart ≠ none) (h2 : gm.extraField = []) :
+    ∀ z, localHeaderChunks gm ≠ .panic z := by
+  intro z hc
+  unfold localHeaderChunks datepartOut localExtraLen at hc
+  rw [h2] at hc
+  cases hd : gm.time.datepart with
+  | none => exact h1 hd
+  | some d =>
+    rw [hd] at hc
+    cases hl : gm.largeFile <;> rw [hl] at hc <;> simp only [List.length_nil] at hc <;> cases hc
+
+/-- `write_local_file_header(writer, &file)?` inside a method (no panic: a DOS time, no extra data yet):
+the chunks of the model, one `write_all` each -/
+theorem lhc_run {σ : Type} (file : Gen.ZipFileData) (gm : FileData) (hv : view file gm)
+    (hnp : ∀ z, localHeaderChunks gm ≠ .panic z) (L : Out (List Bytes)) (hL : localHeaderChunks gm = L)
+    (st : σ) (X : Rs.S σ Unit) (hX : Rs.S.runWB (Gen.write_local_file_header (ω := Bytes) file) st = X) :
+    ∃ l, L = .ok l ∧ X.toM = (M.attempt (M.writeChunks l) >>= fun r => match r with
+      | .error e => pure (.error (e, st))
+      | .ok _ => pure (.ok ())) := by
+  subst hL hX
+  have tie := tie_write_local_file_header file gm hv
+  cases hc : localHeaderChunks gm with
+  | panic z => exact absurd hc (hnp z)
+  | err e =>
+    exfalso
+    unfold localHeaderChunks datepartOut localExtraLen at hc
+    cases hd : gm.time.datepart <;> rw [hd] at hc <;> try cases hc
+    simp only [] at hc
+    split at hc <;> (split at hc <;> cases hc)
+  | ok l =>
+    refine ⟨l, rfl, ?_⟩
+    rw [hc] at tie
+    rcases hx : Gen.write_local_file_header (ω := Bytes) file with ⟨res, log⟩
+    rw [hx] at tie
+    cases res with
+    | none => cases tie
+    | some r =>
+      cases r with
+      | error e => cases tie
+      | ok u =>
+        simp only [chunks, ofOut, Option.some.injEq, Except.ok.injEq] at tie
+        subst tie
+        rfl
+
+theorem shl16 (x : UInt32) : Rs.Arith.shl x 16 = some (x <<< 16) := rfl
+
+theorem sim_start_entry (ext : Rs.S.Ext) (g : Gen.ZipWriter) (name : Bytes) (o : Gen.FileOptions)
+    (raw : Option Gen.ZipRawValues)
+    (hf : ∀ f, g.files.getLast? = some f →
+      f.extra_field.length ≤ 9223372036854775807 ∧
+      f.data_start.toNat + f.extra_field.length < 18446744073709551616 ∧
+      f.header_start.toNat + 34 + f.file_name.length < 18446744073709551616)
+    (hname : name.length < 18446744073709551616)
+    (htime : (Tie.DateTime.toModel o.last_modified_time).datepart ≠ none) :
+    Sim absR (fun _ => True) (Rs.S.run (Gen.ZipWriter.start_entry ext g name o raw))
+      (startEntry ext.toWExt name (optOf o) (raw.map rawOf) (absW g)) := by
+  have hnl : (decide (Rs.len name > Rs.as' UInt64 (65535 : UInt16))) = decide (name.length > 65535) := by
+    have e : (Rs.as' UInt64 (65535 : UInt16)).toNat = 65535 := by decide
+    have e2 : (Rs.len name).toNat = name.length := by
+      simp only [Rs.len, UInt64.toNat_ofNat']; omega
+    rw [decide_eq_decide, gt_iff_lt, UInt64.lt_iff_toNat_lt, e, e2]
+  unfold Gen.ZipWriter.start_entry startEntry
+  by_cases hnm : name.length > 65535
+  · ssimp [hnl, hnm, decide_true]
+    refine Sim.leaf ?_ trivial
+    simp only [absR]
+  · ssimp [hnl, hnm, decide_false]
+    rw [toM_bind_run (Gen.ZipWriter.finish_file ext g)]
+    refine Sim.bind (sim_finish_file ext g hf) ?_
+    intro p hp
+    obtain ⟨r, g2⟩ := p
+    cases r with
+    | error e =>
+      ssimp [absR]
+      refine Sim.leaf ?_ trivial
+      simp only [absR]
+    | ok u =>
+      have hia : (absW g2).inner = g2.inner := rfl
+      cases hin : g2.inner with
+      | closed => ssimp [absR, hia, hin, Rs.S.get_plain]; exact Sim.panic _ _
+      | compressor m l enc pending => ssimp [absR, hia, hin, Rs.S.get_plain]; exact Sim.panic _ _
+      | storer enc =>
+        cases enc with
+        | some e => ssimp [absR, hia, hin, Rs.S.get_plain]; exact Sim.panic _ _
+        | none =>
+          ssimp [absR, hia, hin, Rs.S.get_plain, Model.io, position_attempt_bind, shl16]
+          apply Sim.congr; intro r
+          cases r with
+          | error e =>
+            ssimp []
+            refine Sim.leaf ?_ trivial
+            simp only [absR]
+          | ok p =>
+            by_cases hp64 : p < 18446744073709551616
+            · ssimp [hp64, optOf]
+              generalize hL : localHeaderChunks _ = L
+              generalize hX : Rs.S.runWB (Gen.write_local_file_header (ω := Bytes) _) _ = X
+              obtain ⟨l, hl, hrun⟩ := lhc_run _ _ (by cases raw <;> exact view_dataOf _)
+                (lhc_nopanic _ htime rfl) _ hL _ _ hX
+              subst hl
+              ssimp [hrun]
+              apply Sim.congr; intro r
+              cases r with
+              | error e =>
+                ssimp []
+                refine Sim.leaf ?_ trivial
+                simp only [absR]
+              | ok u3 =>
+                ssimp []
+                apply Sim.congr; intro r
+                cases r with
+                | error e =>
+                  ssimp []
+                  refine Sim.leaf ?_ trivial
+                  simp only [absR]
+                | ok q =>
+                  by_cases hq64 : q < 18446744073709551616
+                  · cases henc : o.encrypt_with with
+                    | none =>
+                      ssimp [hq64, henc]
+                      refine Sim.leaf ?_ trivial
+                      cases raw <;>
+                        simp only [absR, absW, Rs.push, List.map_append, List.map_cons, List.map_nil, dataOf,
+                          ofNat_toNat_lt _ hq64, Option.getD, Option.map, rawOf, Rs.Hasher.new, henc] <;> rfl
+                    | some pw =>
+                      ssimp [hq64, henc, Rs.S.unwrap_sink, Rs.S.get_plain]
+                      refine Sim.leaf ?_ trivial
+                      cases raw <;>
+                        simp only [absR, absW, Rs.push, List.map_append, List.map_cons, List.map_nil, dataOf,
+                          ofNat_toNat_lt _ hq64, Option.getD, Option.map, rawOf, Rs.Hasher.new, henc, Rs.S.zc_write,
+                          Rs.zeros, List.nil_append] <;> rfl
+                  · ssimp [hq64]
+                    exact Sim.ovf_panic _
+            · ssimp [hp64]
+              exact Sim.ovf_panic _
+
+open Rs in
+theorem S.lift_some_bind {σ α β} (a : α) (st : σ) (f : α → Rs.S σ β) : (Rs.S.lift (some a) st >>= f) = f a := by
+  show Rs.S.ofM (Rs.S.toM (pure a : Rs.S σ α) >>= _) = f a
+  simp only [S.toM_pure, pure_bind]
+
+theorem sim_start_file (ext : Rs.S.Ext) (g : Gen.ZipWriter) (name : Bytes) (o : Gen.FileOptions)
+    (hf : ∀ f, g.files.getLast? = some f →
+      f.extra_field.length ≤ 9223372036854775807 ∧
+      f.data_start.toNat + f.extra_field.length < 18446744073709551616 ∧
+      f.header_start.toNat + 34 + f.file_name.length < 18446744073709551616)
+    (hname : name.length < 18446744073709551616)
+    (htime : (Tie.DateTime.toModel o.last_modified_time).datepart ≠ none) :
+    Sim absR (fun _ => True) (Rs.S.run (Gen.ZipWriter.start_file ext g name o))
+      (startFile ext.toWExt name (optOf o) (absW g)) := by
+  unfold Gen.ZipWriter.start_file
+  -- the options after the permission defaulting, on both sides
+  have key : ∀ (o' : Gen.FileOptions), o'.last_modified_time = o.last_modified_time →
+      optOf o' = withFilePerm (optOf o) 0o644 0o100000 →
+      Sim absR (fun _ => True)
+        (Rs.S.run (do
+          let (t2, t3) ← Gen.ZipWriter.start_entry ext g name o' none
+          let (t4, t5) ← Rs.S.call (Rs.S.switch_to ext t3.inner o'.compression_method o'.compression_level)
+          let t6 ← Rs.S.ofResult t4 { t3 with inner := t5 }
+          pure ((), { t3 with inner := t5, writing_to_file := true })))
+        (startFile ext.toWExt name (optOf o) (absW g)) := by
+    intro o' ht ho
+    unfold startFile
+    rw [← ho]
+    have hsw := fun s => switchTo_via ext o'.compression_method o'.compression_level s
+    have hm : (optOf o').method = Tie.Types.methodOf o'.compression_method := rfl
+    have hl : (optOf o').level = o'.compression_level.map Int32.toInt := rfl
+    ssimp [hm, hl, hsw]
+    rw [toM_bind_run (Gen.ZipWriter.start_entry ext g name o' none)]
+    refine Sim.bind (sim_start_entry ext g name o' none hf hname (by rw [ht]; exact htime)) ?_
+    intro p _
+    obtain ⟨r, g2⟩ := p
+    cases r with
+    | error e =>
+      ssimp [absR]
+      refine Sim.leaf ?_ trivial
+      simp only [absR]
+    | ok u =>
+      ssimp [absR]
+      have hia : (absW g2).inner = g2.inner := rfl
+      rw [hia]
+      apply Sim.congr; intro q
+      obtain ⟨r1, i1⟩ := q
+      cases r1 with
+      | error e =>
+        ssimp []
+        refine Sim.leaf ?_ trivial
+        simp only [absR, absW]
+      | ok u2 =>
+        ssimp []
+        refine Sim.leaf ?_ trivial
+        simp only [absR, absW]
+  cases hp : o.permissions with
+  | none =>
+    have := key { o with permissions := some (0o644 ||| 0o100000) } rfl (by simp only [optOf, withFilePerm, hp, Option.getD])
+    simpa only [hp, Option.isNone, ↓reduceIte, S.lift_some_bind] using this
+  | some perm =>
+    have := key { o with permissions := some (perm ||| 0o100000) } rfl (by simp only [optOf, withFilePerm, hp, Option.getD])
+    simpa only [hp, Option.isNone, ↓reduceIte, S.lift_some_bind, Bool.false_eq_true] using this
+
+/-- `set_raw_comment` / `set_comment`: the comment field, nothing else, no I/O -/
+theorem tie_set_raw_comment (ext : Rs.S.Ext) (g : Gen.ZipWriter) (c : Bytes) :
+    Rs.S.run (Gen.ZipWriter.set_raw_comment ext g c) = pure (.ok (), { g with comment := c }) := by
+  unfold Gen.ZipWriter.set_raw_comment
+  ssimp []
+
+theorem tie_set_comment (ext : Rs.S.Ext) (g : Gen.ZipWriter) (c : Bytes) :
+    Rs.S.run (Gen.ZipWriter.set_comment ext g c) = pure (.ok (), { g with comment := c }) := by
+  unfold Gen.ZipWriter.set_comment Gen.ZipWriter.set_raw_comment
+  ssimp []
 
 
 end ZipVerif.Tie.WriterSM
